@@ -144,6 +144,39 @@ def run_eval_programs(rdir):
     return probs, detail
 
 
+def declare_import_lemma(o, M, E, f_declimp, structural):
+    """declare_import: what an import brings into scope comes from the module its path names *relative to the importing
+    module* (shared with C05 and C17: moving declarations into a module of another directory must not change what they
+    denote)."""
+    ex = mirlib.executor([M])
+    n_imp = 0
+    names_ = []
+    for _, ty in f_declimp.args:
+        names_.append("env" if "Env" in ty else "mods" if "ModuleSet" in ty else "loc" if "Locator" in ty else "import" if "Import" in ty else "a%d" % len(names_))
+    for p in ex.run(f_declimp, arg_names=names_):
+        if p.kind != "backedge":
+            continue
+        dc = [e for e in p.calls() if e[1] == "Env::declare"]
+        if not dc:
+            continue
+        n_imp += 1
+        nx = [e for e in p.calls() if e[1].endswith("Iterator::next")]
+        decl = ms.proj(ms.proj(nx[-1][3], ("v", "Some"), E), ("f", 0), E)
+        en = [e for e in p.calls() if e[1] == "Entry::new"]
+        okq = len(dc) == 1 and len(en) == 1 and "Declaration::ident" in ms.show(en[0][2][0]) and any(t == decl for t in ms.subterms(en[0][2][0])) and \
+            ms.show(en[0][2][1]) == "Import::qualifier(&import)" and any(t == en[0][3] for t in ms.subterms(dc[0][2][1])) and \
+            "External::new(Declaration.AbstractSyntaxNode::node" in ms.show(dc[0][2][2]) and any(t == decl for t in ms.subterms(dc[0][2][2]))
+        structural("declare_import: each declaration of the imported module is declared under (its identifier, the import's qualifier) as that declaration's node", okq)
+        gm = [e for e in p.calls() if e[1] == "ModuleSet::get"]
+        jn = [e for e in p.calls() if e[1] == "Locator::join"]
+        okm = len(gm) == 1 and len(jn) == 1 and jn[0][2][0] == ("sym", "loc") and "Import::module(&import)" in ms.show(jn[0][2][1]) and \
+            any(t == jn[0][3] for t in ms.subterms(gm[0][2][1]))
+        structural("declare_import: the declarations come from the module the import path names, relative to the importing module", okm)
+    if n_imp == 0:
+        o.inconc("declare_import: no iteration declares anything")
+    mirlib.check_translator(o, ex, "declare_import")
+
+
 def application_lemmas(o, M, E, f_app, structural):
     """eval_application: arguments are evaluated in the caller's context and bound positionally; the body runs in the
     new scope, which is popped afterwards (shared with C05: single-use functions and renaming are free only then)."""
@@ -423,30 +456,7 @@ def check():
             structural("declare_variable: the duplicate is reported as Kind::InvalidIdentifier", "InvalidIdentifier" in ms.show(p.ret))
     mirlib.check_translator(o, ex, "declare_variable")
 
-    ex = mirlib.executor([M])
-    n_imp = 0
-    for p in ex.run(f_declimp, arg_names=["env", "mods", "loc", "import"]):
-        if p.kind != "backedge":
-            continue
-        dc = [e for e in p.calls() if e[1] == "Env::declare"]
-        if not dc:
-            continue
-        n_imp += 1
-        nx = [e for e in p.calls() if e[1].endswith("Iterator::next")]
-        decl = ms.proj(ms.proj(nx[-1][3], ("v", "Some"), E), ("f", 0), E)
-        en = [e for e in p.calls() if e[1] == "Entry::new"]
-        okq = len(dc) == 1 and len(en) == 1 and "Declaration::ident" in ms.show(en[0][2][0]) and any(t == decl for t in ms.subterms(en[0][2][0])) and \
-            ms.show(en[0][2][1]) == "Import::qualifier(&import)" and any(t == en[0][3] for t in ms.subterms(dc[0][2][1])) and \
-            "External::new(Declaration.AbstractSyntaxNode::node" in ms.show(dc[0][2][2]) and any(t == decl for t in ms.subterms(dc[0][2][2]))
-        structural("declare_import: each declaration of the imported module is declared under (its identifier, the import's qualifier) as that declaration's node", okq)
-        gm = [e for e in p.calls() if e[1] == "ModuleSet::get"]
-        jn = [e for e in p.calls() if e[1] == "Locator::join"]
-        okm = len(gm) == 1 and len(jn) == 1 and jn[0][2][0] == ("sym", "loc") and "Import::module(&import)" in ms.show(jn[0][2][1]) and \
-            any(t == jn[0][3] for t in ms.subterms(gm[0][2][1]))
-        structural("declare_import: the declarations come from the module the import path names, relative to the importing module", okm)
-    if n_imp == 0:
-        o.inconc("declare_import: no iteration declares anything")
-    mirlib.check_translator(o, ex, "declare_import")
+    declare_import_lemma(o, M, E, f_declimp, structural)
 
     def opener(f, label, args, decl_src, closes=None):
         ex = mirlib.executor([M])
